@@ -97,7 +97,11 @@ def gen_cfg(rng, dt, L, kind=None, op=None):
 
 
 def make_settings(cfg):
-    import hvsrpy
+    """The settings object for a case.  One case in five (decided by the configuration's own content, so that a replay
+    takes the same route) gets a settings object WITH A PAST: it was created for another smoothing and an un-padded or
+    default FFT, used once on a short recording, and then brought to the wanted configuration by editing its public
+    attributes in place (dict entries) - what process() does must follow the settings in force when it is called."""
+    import hvsrpy, zlib
     common = dict(window_type_and_width=("tukey", cfg["alpha"]),
                   smoothing=dict(operator=cfg["op"], bandwidth=cfg["b"],
                                  center_frequencies_in_hz=(gen.vector_dtype_form(None, cfg["fcs"], cfg["fcs_dtype"])[0] if cfg.get("fcs_dtype")
@@ -107,6 +111,42 @@ def make_settings(cfg):
         common["fft_settings"] = dict(n=None)
     if cfg.get("policy"):
         common["handle_dissimilar_time_steps_by"] = cfg["policy"]
+    h = zlib.crc32(repr(sorted((k_, repr(v_)) for k_, v_ in cfg.items())).encode())
+    if h % 5 != 0:
+        return _build_settings(cfg, common)
+    past = dict(common)
+    other = ("parzen", 0.5) if cfg["op"] == "konno_and_ohmachi" else ("konno_and_ohmachi", 40.0)
+    past["smoothing"] = dict(operator=other[0], bandwidth=other[1], center_frequencies_in_hz=np.array([1.0, 2.0, 5.0, 10.0]))
+    past["fft_settings"] = dict(n=None) if (h // 5) % 2 == 0 else None
+    try:
+        st = _build_settings(cfg, past)
+        r = np.random.default_rng(h)
+        short = [gen.make_recording(r.standard_normal(128), r.standard_normal(128), r.standard_normal(128), 0.01) for _ in range(2)]
+        with np.errstate(all="ignore"):
+            hvsrpy.process(short, st)
+    except Exception:
+        SETTINGS_WITH_A_PAST["refused"] += 1
+        return _build_settings(cfg, common)
+    st.smoothing["operator"] = common["smoothing"]["operator"]
+    st.smoothing["bandwidth"] = common["smoothing"]["bandwidth"]
+    st.smoothing["center_frequencies_in_hz"] = common["smoothing"]["center_frequencies_in_hz"]
+    want = common["fft_settings"]
+    if want is None:
+        st.fft_settings = None
+    elif isinstance(st.fft_settings, dict):
+        st.fft_settings.clear()
+        st.fft_settings.update(want)
+    else:
+        st.fft_settings = dict(want)
+    SETTINGS_WITH_A_PAST["used"] += 1
+    return st
+
+
+SETTINGS_WITH_A_PAST = {"used": 0, "refused": 0}
+
+
+def _build_settings(cfg, common):
+    import hvsrpy
     k = cfg["kind"]
     if k == "freq":
         return hvsrpy.HvsrTraditionalProcessingSettings(method_to_combine_horizontals=cfg["method"], **common)
